@@ -48,9 +48,15 @@ func init() {
 						continue
 					}
 					args := stable.Common().Args
+					// the list itself, or the very slice value that was just stored into it (a local alias of the new list)
+					alias := ""
 					if !strings.HasSuffix(accessPath(args[0]), "."+fld) {
-						c.Violate(key, stable.Pos(), "the sorted slice is %s, not the list that was appended to", accessPath(args[0]))
-						continue
+						if sameValue(resolve(args[0]), resolve(s.st.Val)) || stripConv(resolve(args[0])) == stripConv(resolve(s.st.Val)) {
+							alias = accessPath(resolve(s.st.Val))
+						} else {
+							c.Violate(key, stable.Pos(), "the sorted slice is %s, not the list that was appended to", accessPath(args[0]))
+							continue
+						}
 					}
 					mc, ok := stripConv(args[1]).(*ssa.MakeClosure)
 					if !ok {
@@ -82,8 +88,13 @@ func init() {
 							i, j := accessPath(less.Params[0]), accessPath(less.Params[1])
 							detail = cc
 							parts := strings.Split(cc, " < ")
-							if len(parts) == 2 && strings.Contains(parts[0], "."+fld+"["+i+"]") && strings.HasSuffix(parts[0], ".Order()") &&
-								strings.Contains(parts[1], "."+fld+"["+j+"]") && strings.HasSuffix(parts[1], ".Order()") {
+							elem := func(part, idx string) bool {
+								if !strings.HasSuffix(part, ".Order()") {
+									return false
+								}
+								return strings.Contains(part, "."+fld+"["+idx+"]") || (alias != "" && strings.Contains(part, alias+"["+idx+"]"))
+							}
+							if len(parts) == 2 && elem(parts[0], i) && elem(parts[1], j) {
 								okLess = true
 							}
 						}
